@@ -13,9 +13,9 @@ def _posts(res):
 
 
 FAMS = [
-    PoolMixFamily("C07", "progress-async-clean", 2000, 40000,
+    PoolMixFamily("C07", "progress-async-clean", 1800, 40000,
                   {"exec": "asyncio", **OPTS}, [oracles.WaiterObserver], [_posts]),
-    PoolMixFamily("C07", "progress-async-cancels", 2000, 40000,
+    PoolMixFamily("C07", "progress-async-cancels", 1800, 40000,
                   {"exec": "asyncio", "faulty": True, "cancels": True,
                    "cancel_kinds": ["scope", "deadline"], **OPTS},
                   [oracles.WaiterObserver], [_posts]),
@@ -27,7 +27,7 @@ FAMS = [
                   [oracles.WaiterObserver], [_posts]),
     PoolMixFamily("C07", "progress-trio", 1200, 20000,
                   {"exec": "trio", "cancels": True, **OPTS}, [], [_posts]),
-    PoolMixFamily("C07", "progress-threads", 800, 15000,
+    PoolMixFamily("C07", "progress-threads", 600, 15000,
                   {"exec": "threads", **OPTS, "max_callers": 4, "protos": ["h1"]},
                   [oracles.WaiterObserver], [_posts]),
 ]
